@@ -23,7 +23,7 @@ RULE = ('sweep: all labelled import digraphs (self imports allowed) over k<=2 (q
         'x failing module x failure stage {missing, reader error, lexical, syntax, truncated, empty file, duplicate symbol, unknown parent, bad reference, '
         'OID cycle, injected parser/symbol-table/generator error} x ignoreErrors x borrower yes/no; seeded: random graphs with several failures. '
         'distinct = distinct (status multiset, options, fault kinds, component counts, stage); non-trivial = every sweep world (one planted failure) and seeded worlds with a fault or >=2 modules')
-ASSUMPTIONS = ['file names equal module names (multi-module files are left to C07, where known finding D18 lives)']
+ASSUMPTIONS = ['multi-module files only in worlds without borrowers; names whose failure stems from a co-resident module (known finding D18, C07) count as failures for the write decision but their own status is not judged here']
 SWEEP_SET = {'quick': 'digraphs k<=2 x module x 13 failure stages x ignoreErrors x borrower', 'thorough': 'digraphs k<=3 x module x 13 failure stages x ignoreErrors x borrower'}
 
 STAGES = ['missing', 'reader-error', 'lex', 'syntax', 'cut', 'empty', 'dupsym', 'unkparent', 'badref', 'oidcycle',
@@ -136,6 +136,16 @@ def judge(t):
             V('C09.0-finished', 'compile() did not finish within the event budget', what='budget')
         return viol
     F, B, fresh = failure_sets(t)
+    # known finding D18 (see C07): in a multi-module file the failure of a co-resident module is booked under the
+    # lookup name although that module itself compiled; such names are failures for the write decision (clause 1)
+    # but their own status/writing is C07's business
+    cores = set()
+    for c in t.by('symtab.genCode'):
+        if not c.ok and c.ctx is not None and c.mib != c.ctx:
+            if any(d.ok and d.mib == c.ctx and d.ctx == c.ctx for d in t.by('symtab.genCode')):
+                cores.add(c.ctx)
+    if cores:
+        t.world.probe('coresident-failure-world')
     if 'NO-SUCH-MIB' in scn.get('requested', ()) and not any(c.mib == 'NO-SUCH-MIB' and c.ok for c in t.by('borrower.getData')):
         F.add('NO-SUCH-MIB')
     if not scn.get('sources'):
@@ -170,6 +180,8 @@ def judge(t):
                 V('C09.1-nothing-written', 'built module %s is reported %s, not unprocessed, although %s failed' % (b, R.get(b), sorted(F)),
                   what='built-not-unprocessed', status=str(R.get(b)), stage=scn.get('stage'))
         for f in sorted(F):
+            if f in cores:
+                continue
             if str(R.get(f)) not in ('failed', 'missing'):
                 V('C09.1-nothing-written', 'failed module %s is reported %s' % (f, R.get(f)), what='failed-status', status=str(R.get(f)))
     else:
@@ -184,6 +196,8 @@ def judge(t):
             if writing and okput.get(b, 0) != 1:
                 V('C09.2-ignore-errors' if F else 'C09.3-no-failure-all-written', 'built module %s was written %d times' % (b, okput.get(b, 0)), what='built-not-written', stage=scn.get('stage'))
         for f in sorted(F):
+            if f in cores:
+                continue
             if str(R.get(f)) not in ('failed', 'missing'):
                 V('C09.2-ignore-errors', 'bad module %s is reported %s, not failed/missing' % (f, R.get(f)), what='bad-status', status=str(R.get(f)))
             if f in okput:
@@ -192,7 +206,16 @@ def judge(t):
 
 
 def run(scn):
-    t = cs.run_world(scn)
+    root = core.new_root('c09') if scn.get('realfs') else None
+    try:
+        return _run(scn, root)
+    finally:
+        if root:
+            core.drop_root(root)
+
+
+def _run(scn, root):
+    t = cs.run_world(scn, root=root)
     viol = judge(t)
     out = cs.outcome(t, viol, nontrivial=True if scn.get('planned_failure') else None, extra_sig=[scn.get('stage'), len(scn.get('modules', {}))])
     return out
@@ -200,8 +223,10 @@ def run(scn):
 
 def generate(rng, tier):
     scn = cs.gen_world(rng, tier, focus='C09')
-    scn['files'] = {}
-    scn.pop('co_only', None)
+    if scn.get('borrowers') or rng.random() < 0.5:
+        # with borrowers D18 can replace a compiled module by a borrowed copy: keep those worlds single-module-per-file
+        scn['files'] = {}
+        scn.pop('co_only', None)
     # make sure every generated module has at least a chance to be held somewhere
     return scn
 
